@@ -333,7 +333,11 @@ impl Scenario for C08 {
             }
             // trailing octets: nothing, a few octets, a further valid
             // message, a valid AVP record, a UTF-8 continuation
-            let trail = match wl.below(8) {
+            let trail = if ctx.run % 256 == 9 && k == 0 {
+                ctx.obs.count("probe:trail-beyond-64k");
+                let n = *wl.pick(&[65_524usize, 65_536, 65_600, 70_000]);
+                if wl.bool() { vec![0u8; n] } else { wl.bytes(n) }
+            } else { match wl.below(8) {
                 0 | 1 => Vec::new(),
                 2 => {
                     let n = *wl.pick(&[1usize, 5, 6, 12]);
@@ -355,7 +359,7 @@ impl Scenario for C08 {
                     let n = wl.urange(1, 64);
                     wl.bytes(n)
                 }
-            };
+            } };
             if !trail.is_empty() {
                 ctx.obs.count("fault:append-trail");
             }
